@@ -203,13 +203,44 @@ def run(ctx):
             ctx.undecided('C09.U4', gd, 'depth element type %s' % res.elem)
     else:
         ctx.undecided('C09.U4', gd, 'get_depths returns %s' % [v for n, v in rets])
-    feat = [n for n in gd.nodes(ast.Subscript) if unparse(n.value) == 'self.sparse_features.data' and isinstance(n.slice, ast.Tuple) and len(n.slice.elts) == 3]
-    ctx.check(bool(feat) and const_value(feat[0].slice.elts[2]) == 0, 'C09.U4', gd, feat[0] if feat else 'get_depths', 'the weights use the first principal component', 'the weights do not use the first principal component')
-    sq = any(isinstance(n, ast.BinOp) and isinstance(n.op, ast.Pow) and const_value(n.right) == 2 for n in ast.walk(gd.node)) or any(isinstance(n, ast.Call) and dotted(n.func) == 'np.square' for n in ast.walk(gd.node))
-    ctx.check(sq, 'C09.U4', gd, 'weights', 'the weights are squared feature values', 'the weights are not squared')
-    tmpl = [n for n in gd.nodes(ast.Subscript) if unparse(n.value) == 'self.sparse_features.cols']
-    ctx.check(bool(tmpl) and 'self.spike_templates[' in unparse(tmpl[0].slice), 'C09.U4', gd, tmpl[0] if tmpl else 'get_depths', 'the channels of a spike are those of its TEMPLATE in the feature table',
-              'the channels of a spike are not looked up through its template')
+    # structural parts, over get_depths and the helpers extracted from it after the pinned tree
+    clo = repo.transparent_closure(gd)
+    feat = [(f_, n) for f_ in clo for n in f_.nodes(ast.Subscript) if Pat(f_).m('self.sparse_features.data', n.value, expand=True)]
+    f3 = [(f_, n) for f_, n in feat if isinstance(n.slice, ast.Tuple) and len(n.slice.elts) == 3]
+    if f3 and all(const_value(f_.expand(n.slice.elts[2])) == 0 for f_, n in f3):
+        ctx.holds('C09.U4', gd, 'the weights use the first principal component', f3[0][1])
+    elif f3 and any(const_value(f_.expand(n.slice.elts[2])) not in (0, None) or isinstance(n.slice.elts[2], ast.Slice) for f_, n in f3):
+        b_ = [x for x in f3 if const_value(x[0].expand(x[1].slice.elts[2])) not in (0, None) or isinstance(x[1].slice.elts[2], ast.Slice)][0]
+        ctx.violated('C09.U4', b_[0], b_[1], 'the weights do not use the first principal component (`%s`)' % unparse(b_[1]))
+    elif feat and not f3 and all(isinstance(n.slice, ast.Tuple) and len(n.slice.elts) == 2 for f_, n in feat):
+        ctx.violated('C09.U4', feat[0][0], feat[0][1], 'the weights do not use the first principal component (`%s` keeps every component)' % unparse(feat[0][1]))
+    else:
+        ctx.undecided('C09.U4', gd, 'the read of the feature table in get_depths was not recognised')
+    pw = [(f_, n) for f_ in clo for n in ast.walk(f_.node) if (isinstance(n, ast.BinOp) and isinstance(n.op, ast.Pow)) or
+          (isinstance(n, ast.Call) and dotted(n.func) in ('np.square', 'np.power', 'np.abs', 'np.absolute'))]
+    sq = [x for x in pw if (isinstance(x[1], ast.BinOp) and const_value(x[0].expand(x[1].right)) == 2) or (isinstance(x[1], ast.Call) and dotted(x[1].func) == 'np.square') or
+          (isinstance(x[1], ast.Call) and dotted(x[1].func) == 'np.power' and len(x[1].args) == 2 and const_value(x[0].expand(x[1].args[1])) == 2)]
+    selfmul = [(f_, n) for f_ in clo for n in f_.nodes(ast.BinOp) if isinstance(n.op, ast.Mult) and ast.dump(n.left) == ast.dump(n.right)]
+    if sq or selfmul:
+        ctx.holds('C09.U4', gd, 'the weights are squared feature values', (sq or selfmul)[0][1])
+    elif pw:
+        ctx.violated('C09.U4', pw[0][0], pw[0][1], 'the weights are not the SQUARED feature values (`%s`)' % unparse(pw[0][1]))
+    elif f3 and any(Pat(f_).any(['np.maximum(E_f, 0)', 'np.clip(E_f, 0, ANY)', 'np.clip(E_f, 0, None)'], x) for f_ in clo for x in ast.walk(f_.node) if isinstance(x, ast.Call)):
+        ctx.violated('C09.U4', gd, 'weights', 'the weights are not squared (the rectified feature values are used as they are)')
+    else:
+        ctx.undecided('C09.U4', gd, 'the squaring of the feature weights was not recognised')
+    tmpl = [(f_, n) for f_ in clo for n in f_.nodes(ast.Subscript) if Pat(f_).m('self.sparse_features.cols', n.value, expand=True)]
+    via = [x for x in tmpl if any(Pat(x[0]).m('self.spike_templates[ANY]', y) or Pat(x[0]).m('self.spike_templates', y) for y in ast.walk(x[0].expand(x[1].slice)))]
+    via_clu = [x for x in tmpl if any(Pat(x[0]).m('self.spike_clusters', y) for y in ast.walk(x[0].expand(x[1].slice)))]
+    if tmpl and len(via) == len(tmpl):
+        ctx.holds('C09.U4', gd, 'the channels of a spike are those of its TEMPLATE in the feature table', tmpl[0][1])
+    elif via_clu:
+        ctx.violated('C09.U4', via_clu[0][0], via_clu[0][1], 'the channels of a spike are not looked up through its template (`%s`)' % unparse(via_clu[0][1]))
+    elif tmpl and not via and all({n_.id for n_ in ast.walk(x[0].expand(x[1].slice)) if isinstance(n_, ast.Name)} <= set(x[0].defs()) | set(x[0].params) | {"self", "np"} and
+                                  not any(isinstance(y, ast.Attribute) and isinstance(y.value, ast.Name) and y.value.id == 'self' for y in ast.walk(x[0].expand(x[1].slice))) for x in tmpl):
+        ctx.violated('C09.U4', tmpl[0][0], tmpl[0][1], 'the channels of a spike are not looked up through its template (`%s`)' % unparse(tmpl[0][1]))
+    else:
+        ctx.undecided('C09.U4', gd, 'the lookup of the feature channels of a spike was not recognised')
     # the normaliser of a mean / weighted mean is used as computed: patching it (e.g. norm[norm == 0] = 1) turns the NaN of an id / spike
     # without weight into a finite, wrong value
     for fn in (gd, gat, am):
